@@ -43,7 +43,11 @@ structure Env where
   panics : String → Nat → Bool
   evm : String → Nat → EvmKind
   cond : String → Nat → Bool
-  iters : Nat → Nat
+  /-- number of iterations of loop `id` when it is entered at iteration `i` of the enclosing loop (0 at top level) -/
+  iters : Nat → Nat → Nat
+  /-- the `j`-th iteration of a loop entered at iteration `i` of the enclosing loop has index `i * stride + j`
+  (any finite block of proposals × messages is representable with a stride above the longest message list) -/
+  stride : Nat
 
 inductive Flow where
   | norm | brk | cont | ret (ok : Bool) | panic
@@ -99,13 +103,16 @@ def markFailed (st : St) (c : Ctx) (failed : Bool) : St :=
 def commitCache (st : St) (k : Nat) : St :=
   match st.caches.find? (fun c => c.1 == k) with
   | none => st
-  | some c => writeMany { st with caches := st.caches.filter (fun c => c.1 != k) } c.2.1 c.2.2
+  | some c =>
+    -- cachekv Write(): the pending writes go to the parent; the branch stays usable (now empty)
+    writeMany { st with caches := st.caches.map (fun d => if d.1 == k then (d.1, d.2.1, []) else d) } c.2.1 c.2.2
 
 def evalCond (env : Env) (it : Nat) (st : St) : Cond → Bool
   | .ok v => st.isOk v
   | .evmFailed v => st.evmOf v != .ok
   | .evmReverted v => st.evmOf v == .revert
   | .other t => env.cond t it
+  | .cacheUnset k => !isOpen st k
   | .not c => !evalCond env it st c
   | .and a b => evalCond env it st a && evalCond env it st b
   | .or a b => evalCond env it st a || evalCond env it st b
@@ -145,7 +152,7 @@ def exec (env : Env) : Stmt → Nat → St → Flow × St
   | .panic, _, st => (.panic, st)
   | .setErr v ok, _, st => (.norm, setVar st (some v) ok)
   | .ite c t e, it, st => if evalCond env it st c then exec env t it st else exec env e it st
-  | .loop id body, _, st => iterate (fun i s => exec env body i s) (env.iters id) 0 st
+  | .loop id body, it, st => iterate (fun i s => exec env body i s) (env.iters id it) (it * env.stride) st
   | .brk, _, st => (.brk, st)
   | .cont, _, st => (.cont, st)
   | .ret r, it, st => (.ret (retOk env it st r), st)
@@ -191,9 +198,9 @@ def Leaf.after {S : Type} (l : Leaf S) (s : S) : S :=
 abbrev Eff (S : Type) := String → Nat → Leaf S
 
 /-- the finite information the control flow depends on -/
-def Eff.env {S : Type} (eff : Eff S) (cond : String → Nat → Bool) (iters : Nat → Nat) : Env :=
+def Eff.env {S : Type} (eff : Eff S) (cond : String → Nat → Bool) (iters : Nat → Nat → Nat) (stride : Nat := 0) : Env :=
   { ok := fun n i => (eff n i).failAt.isNone, panics := fun n i => (eff n i).panics, evm := fun n i => (eff n i).evm,
-    cond := cond, iters := iters }
+    cond := cond, iters := iters, stride := stride }
 
 def denote {S : Type} (eff : Eff S) (ts : List Tok) (s : S) : S := ts.foldl (fun a t => (eff t.name t.iter).after a) s
 
